@@ -112,12 +112,47 @@ pub fn range_strategy(max_partial: usize) -> impl Strategy<Value = RangeCase> {
         let w = if same { [w[0], w[0], w[1]] } else { w };
         // special shapes: every selected cell complete at one weight (whole rows, the full range
         // of all 1326 combos when every row is selected), optionally minus the partial cells
-        let cells = match special {
+        let mut mask = mask;
+        let mut partials = partials;
+        let cells: Vec<u8> = match special {
             0 => vec![1u8; 169],
             1 => cells.iter().map(|c| if *c == 0 { 1 } else { *c }).collect(),
+            // every combo present, every rank pair complete, two or three different weights
+            2 => {
+                mask = 0x1ff_ffff;
+                partials.clear();
+                cells.iter().map(|c| if *c == 0 { 1 } else { *c }).collect()
+            }
+            // "top-heavy": the suited and offsuit rows of one to three high cards are completely
+            // covered, their pocket pairs are partial, the rest is random
+            3 | 4 => {
+                let mut cs = cells.clone();
+                mask |= 1; // pocket row
+                let highs: Vec<usize> = partials.iter().take(3).map(|p| p.0 as usize % if special == 3 { 2 } else { 12 }).collect();
+                let highs = if highs.is_empty() { vec![0usize] } else { highs };
+                // cell index layout follows rows(): 13 pockets, then per high card suited row, offsuit row
+                let mut start = 13usize;
+                for h in 0..12usize {
+                    let len = 12 - h;
+                    if highs.contains(&h) {
+                        mask |= 0b11 << (1 + 2 * h);
+                        for i in 0..(2 * len) {
+                            if cs[start + i] == 0 {
+                                cs[start + i] = 1 + (i as u8 + h as u8) % 2;
+                            }
+                        }
+                        // partial pocket pair of that rank
+                        partials.push((h as u8, 0b01_00_01_10_00_01 ^ (h as u32 * 37)));
+                    }
+                    start += 2 * len;
+                }
+                let k = highs.len().min(partials.len());
+                partials.rotate_right(k);
+                cs
+            }
             _ => cells,
         };
-        RangeCase::from_map(&build_range(mask, &cells, w, &partials, max_partial))
+        RangeCase::from_map(&build_range(mask, &cells, w, &partials, max_partial.max(3)))
     })
 }
 
